@@ -1019,10 +1019,24 @@ func c04BatchRequest(p *Prog, r *Report, R4 string) {
 				if a.Kind != Truth || !ok {
 					continue
 				}
-				xt, yt := s.Of(bo.X).String(), s.Of(bo.Y).String()
-				isL := func(t string) bool {
+				xT, yT := s.Of(bo.X), s.Of(bo.Y)
+				xt, yt := xT.String(), yT.String()
+				isL0 := func(t string) bool {
 					return strings.HasPrefix(t, "extract<0>(call<quicwire.ConsumeVarint>(") || strings.HasPrefix(t, "conv<int>(extract<0>(call<quicwire.ConsumeVarint>(")
 				}
+				// len(data[off : off+l]) is l (the list handed back by a framing helper)
+				lenOfList := map[string]bool{}
+				for _, t := range []*Term{xT, yT} {
+					if t.Op == "len" && len(t.Args) == 1 && t.Args[0].Op == "slice" && len(t.Args[0].Args) == 3 {
+						lo, hi := t.Args[0].Args[1], t.Args[0].Args[2]
+						if hi.Op == "bin" && hi.Name == "+" && len(hi.Args) == 2 {
+							if (hi.Args[0].String() == lo.String() && isL0(hi.Args[1].String())) || (hi.Args[1].String() == lo.String() && isL0(hi.Args[0].String())) {
+								lenOfList[t.String()] = true
+							}
+						}
+					}
+				}
+				isL := func(t string) bool { return isL0(t) || lenOfList[t] }
 				switch {
 				case isL(xt) && yt == "const:0":
 					found = found || (bo.Op == token.NEQ && a.Pol) || (bo.Op == token.EQL && !a.Pol) || (bo.Op == token.GTR && a.Pol) || (bo.Op == token.LEQ && !a.Pol)
